@@ -424,3 +424,9 @@ Definition handler_final (r : resp) (order : list str) : hmap :=
   let tm := handler_trailer_map r in
   if (length tm =? length (r_trailer r))%nat then copy_header (handler_header r order) tm
   else copy_header (handler_header r order) (map (fun kv => (hw_trailer_prefix ++ fst kv, snd kv)) tm).
+
+(* when copying the body fails (the origin died mid-body) the handler must panic with
+   http.ErrAbortHandler, so that net/http drops the connection instead of finishing the message:
+   does the response the client received end like a complete one? *)
+Definition handler_finishes_message (copy_failed : bool) : bool :=
+  if copy_failed then negb hw_copy_error_aborts else true.
